@@ -13,7 +13,7 @@
 use geo::{Centroid, Coord, LineString};
 use routee_compass::app::compass::config::builders::InputPluginBuilder;
 use routee_compass::app::compass::config::frontier_model::vehicle_restrictions::{
-    vehicle_parameters::VehicleParameters, vehicle_restriction::VehicleRestriction,
+    vehicle_parameters::VehicleParameters,
 };
 use routee_compass::plugin::input::default::edge_rtree::edge_rtree_input_plugin_builder::EdgeRtreeInputPluginBuilder;
 use routee_compass::plugin::input::default::vertex_rtree::builder::VertexRTreeBuilder;
@@ -962,8 +962,8 @@ fn edge_stage(st: &mut Stream, dir: &Path, id: usize, c: &ECase) -> (String, Str
 
 /// the vehicle-restriction verdict per edge under the query's vehicle parameters: an edge is admissible iff the
 /// vehicle passes EVERY restriction row written for it (rows in any order, anywhere in the file). Each row is turned
-/// into a VehicleRestriction the way RestrictionRow::to_restriction does and judged by the real
-/// VehicleRestriction::valid; the restriction-file LOADER of the plugin is deliberately not used here.
+/// judged by [row_admits] (own SI factors, value <= limit); neither the restriction-file LOADER of the plugin nor
+/// VehicleRestriction::valid is used for the expected value.
 /// The query's vehicle parameters as the UNCHANGED VehicleParameters::from_query reads them (the plugin takes
 /// `from_query(query).ok()`): all six fields must be present and well typed; `number_of_axles` is any JSON
 /// number for which as_u64() answers (a non-negative integer, however large - the unchanged code narrows it with
@@ -985,15 +985,50 @@ fn spec_vehicle_parameters(q: &Value) -> Option<VehicleParameters> {
 }
 fn truck_table(c: &ECase, q: &Value) -> Vec<bool> {
     let vparams = spec_vehicle_parameters(q);
+    let vjson = q.get("vehicle_parameters");
     (0..c.edges.len())
-        .map(|i| match (&c.restrictions, &vparams) {
-            (Some(rows), Some(vp)) => rows.iter().filter(|(e, _, _, _)| *e == i).all(|(_, name, value, unit)| {
-                let r: VehicleRestriction = serde_json::from_value(json!({ name.as_str(): (value, unit) })).unwrap_or_else(|e| panic!("restriction row: {}", e));
-                r.valid(vp)
-            }),
+        .map(|i| match (&c.restrictions, &vparams, vjson) {
+            (Some(rows), Some(vp), Some(vj)) => rows.iter().filter(|(e, _, _, _)| *e == i).all(|(_, name, value, unit)| row_admits(name, *value, unit, vj, vp.number_of_axles)),
             _ => true,
         })
         .collect()
+}
+/// exact SI value of one unit (metres / kilograms; "tons" are short tons of 2000 lb)
+fn si_of(unit: &str) -> f64 {
+    match unit {
+        "meters" => 1.0,
+        "kilometers" => 1000.0,
+        "miles" => 1609.344,
+        "inches" => 0.0254,
+        "feet" => 0.3048,
+        "kg" => 1.0,
+        "pounds" => 0.45359237,
+        "tons" => 907.18474,
+        _ => panic!("unit {}", unit),
+    }
+}
+/// Does the vehicle pass ONE restriction row?  Decided here, independently of VehicleRestriction::valid: the
+/// vehicle's value and the limit are both brought to SI with exact factors and the vehicle is admitted iff
+/// value <= limit (same unit: the raw numbers are compared).  The generators keep a margin of more than 0.5 %
+/// between value and limit whenever the units differ, so the decimal unit constants of the code cannot flip it.
+fn row_admits(name: &str, limit: f64, limit_unit: &str, vj: &Value, axles: u8) -> bool {
+    let field = match name {
+        "maximum_total_weight" | "maximum_weight_per_axle" => "total_weight",
+        "maximum_length" => "total_length",
+        "maximum_width" => "width",
+        "maximum_height" => "height",
+        "maximum_trailer_length" => "trailer_length",
+        _ => panic!("restriction {}", name),
+    };
+    let v = vj[field][0].as_f64().unwrap();
+    let vu = vj[field][1].as_str().unwrap();
+    let per = if name == "maximum_weight_per_axle" { axles as f64 } else { 1.0 };
+    if vu == limit_unit {
+        return v / per <= limit;
+    }
+    let (a, b) = (v * si_of(vu) / per, limit * si_of(limit_unit));
+    assert!((a - b).abs() > 0.005 * b.abs(), "vehicle value too close to the limit for a mixed-unit row: {} {} vs {} {}", v, vu, limit, limit_unit);
+    a <= b
 }
 
 /// RoadClassParser::read_query, harness-side copy used only to compute the admissible set for the
@@ -1011,6 +1046,11 @@ fn harness_read_query(mapping: &[(String, u8)], q: &Value) -> Option<Option<Vec<
 fn vehicle(height_m: f64, weight_kg: f64) -> Value {
     json!({"height": [height_m, "meters"], "width": [2.5, "meters"], "total_length": [60.0, "feet"],
            "trailer_length": [48.0, "feet"], "total_weight": [weight_kg, "kg"], "number_of_axles": 5})
+}
+/// the same kind of vehicle, its parameters given in imperial units
+fn vehicle_imperial(height_ft: f64, weight_lb: f64) -> Value {
+    json!({"height": [height_ft, "feet"], "width": [98.0, "inches"], "total_length": [18.0, "meters"],
+           "trailer_length": [14.0, "meters"], "total_weight": [weight_lb, "pounds"], "number_of_axles": 5})
 }
 fn with(mut q: Value, k: &str, v: Value) -> Value {
     q.as_object_mut().unwrap().insert(k.to_string(), v);
@@ -1169,6 +1209,21 @@ fn edge_boundary_cases() -> Vec<ECase> {
         second.seq = vec![qd.clone(), q0.clone()];
         c.then = vec![second];
         out.push(c);
+    }
+    // the vehicle's unit differs from the restriction row's unit (meters vs feet / inches, kg vs pounds / tons): the
+    // limit applies to the physical quantity
+    {
+        // edge 0: 13 ft height limit; edge 1: 150 in height limit (3.81 m); edge 2: 10 short tons; edge 3: 30000 lb per 5 axles = 6000 lb/axle
+        let rows = vec![(0usize, "maximum_height", 13.0, "feet"), (1, "maximum_height", 150.0, "inches"), (2, "maximum_total_weight", 10.0, "tons"),
+                        (3, "maximum_weight_per_axle", 6000.0, "pounds"), (0, "maximum_width", 3.0, "meters"), (1, "maximum_length", 70.0, "feet")];
+        for (h, w) in [(3.5, 8000.0), (3.9, 8000.0), (4.0, 8000.0), (4.3, 8000.0), (4.0, 9500.0), (4.3, 12000.0), (4.3, 14500.0), (3.5, 20000.0)] {
+            out.push(ecase("mixed_unit_restrictions", line.clone(), None, Some(rows.clone()), None, with(q0.clone(), "vehicle_parameters", vehicle(h, w))));
+        }
+        // restrictions in metric units, the vehicle in imperial ones
+        let rows_m = vec![(0usize, "maximum_height", 4.0, "meters"), (1, "maximum_total_weight", 9000.0, "kg"), (2, "maximum_height", 4.4, "meters"), (2, "maximum_width", 2.6, "meters")];
+        for (hf, wl) in [(12.0, 15000.0), (13.5, 15000.0), (13.5, 25000.0), (14.8, 25000.0), (12.0, 25000.0)] {
+            out.push(ecase("mixed_unit_restrictions", line.clone(), None, Some(rows_m.clone()), None, with(q0.clone(), "vehicle_parameters", vehicle_imperial(hf, wl))));
+        }
     }
     // boundary axle counts: whenever the unchanged from_query yields parameters (any non-negative integer, narrowed
     // with `as u8`), the height / weight restrictions of the nearest edges must still be enforced; a negative,
@@ -1487,10 +1542,13 @@ fn random_edge_case(r: &mut Rng) -> ECase {
         let k = r.below(4) as usize;
         let start = r.below(3) as usize;
         for i in order.iter().skip(start).take(k) {
-            match r.below(3) {
+            match r.below(6) {
                 0 => rs.push((*i, "maximum_height".into(), 3.0, "meters".into())),
                 1 => rs.push((*i, "maximum_total_weight".into(), 8.0, "tons".into())),
-                _ => rs.push((*i, "maximum_weight_per_axle".into(), 2000.0, "pounds".into())),
+                2 => rs.push((*i, "maximum_weight_per_axle".into(), 2000.0, "pounds".into())),
+                3 => rs.push((*i, "maximum_height".into(), 11.0, "feet".into())),
+                4 => rs.push((*i, "maximum_height".into(), 140.0, "inches".into())),
+                _ => rs.push((*i, "maximum_total_weight".into(), 20000.0, "pounds".into())),
             }
         }
         // 0-2 further rows per restricted edge and a few on other edges, none of them binding for the vehicle;
@@ -1509,7 +1567,8 @@ fn random_edge_case(r: &mut Rng) -> ECase {
         r.shuffle(&mut rs);
         restrictions = Some(rs);
         if r.chance(5, 6) {
-            query = with(query, "vehicle_parameters", vehicle(4.0, 15000.0));
+            // 4.0 m / 15 t, in metric or in imperial units (13.1 ft / 33070 lb)
+            query = with(query, "vehicle_parameters", if r.chance(1, 3) { vehicle_imperial(13.1, 33070.0) } else { vehicle(4.0, 15000.0) });
         }
     }
     let mut c = ECase { family: if polar { "random_high_latitude".into() } else { "random".into() }, edges, classes, restrictions, mapping, tol_bits: None, unit: None, query, seq: vec![], then: vec![] };
